@@ -270,4 +270,364 @@ class C14(LookupProfile):
     return cfg
 
 
-PROFILES = [C13(), C14()]
+# -- C39 ------------------------------------------------------------------------------------------
+
+class C39(HistoryProfile):
+  prop = "C39"
+  name = "c39"
+  technique = ("deterministic simulation: RenameChoices with seeded maps (swaps, chains, unknown and "
+               "empty choices) against Choice / Choice List columns and saved filters that have lived "
+               "through a history of edits, removals and undo; reference simultaneous rename of Sigma")
+  max_events = 26
+  POOL = ["a", "b", "c", "d", "", "a b", "é"]
+
+  def config(self, rng, tier):
+    return {"max_events": rng.randint(6, self.max_events), "p_undo": 0.06}
+
+  def first_events(self, sim, g, cfg):
+    ch = json.dumps({"choices": ["a", "b", "c"]})
+    return [{"k": "open"},
+            {"k": "bundle", "ops": ["choice_schema"], "a": [
+              ["AddTable", "K", [{"id": "ch", "type": "Choice", "isFormula": False, "widgetOptions": ch},
+                                 {"id": "cl", "type": "ChoiceList", "isFormula": False, "widgetOptions": ch},
+                                 {"id": "other", "type": "Choice", "isFormula": False, "widgetOptions": ch},
+                                 {"id": "txt", "type": "Text", "isFormula": False},
+                                 {"id": "f", "type": "Any", "isFormula": True,
+                                  "formula": "str($ch) + '/' + ','.join($cl)"}]],
+              ["BulkAddRecord", "K", [None] * 4, {"ch": ["a", "b", "", "c"],
+                                                  "cl": [["L", "a", "b"], None, ["L", "c"], ["L", "b", "a", "c"]],
+                                                  "other": ["a", "b", "c", "a"], "txt": ["a", "b", "c", "d"]}]]}]
+
+  def _choice(self, rng):
+    return rng.choice(self.POOL)
+
+  def next_event(self, sim, g, cfg, st, i):
+    rng = g.rng
+    dv = DocView(sim.sigma)
+    t = dv.tables.get("K")
+    if t is None:
+      return None
+    r = rng.random()
+    if r < cfg["p_undo"] and sim.ptr > 1:
+      return {"k": "undo"}
+    if r < 0.4:
+      col = rng.choice(["ch", "cl", "other"])
+      n = rng.randint(0, 4)
+      keys = rng.sample(self.POOL + ["zz"], n)
+      shape = rng.random()
+      if shape < 0.3 and n >= 2:
+        vals = keys[1:] + keys[:1]            # a permutation: swaps / cycles
+      else:
+        vals = [rng.choice(self.POOL + ["new", "new2"]) for _ in keys]
+      return {"k": "bundle", "a": [["RenameChoices", "K", col, dict(zip(keys, vals))]], "ops": ["rename_choices"]}
+    if r < 0.55:
+      col = t.cols.get(rng.choice(["ch", "cl", "other", "txt"]))
+      secs = [s for s, rec in dv.records("_grist_Views_section") if rec["tableRef"] == t.ref]
+      if col is None or not secs:
+        return {"k": "bundle", "a": [["Calculate"]], "ops": ["noop"]}
+      kind = rng.choice(["included", "excluded"])
+      vals = [rng.choice(self.POOL + [1, None, True]) for _ in range(rng.randint(0, 3))]
+      filt = rng.choice([json.dumps({kind: vals}), "", json.dumps({kind: vals})])
+      return {"k": "bundle", "a": [["AddRecord", "_grist_Filters", None,
+                                    {"viewSectionRef": rng.choice(secs), "colRef": col.ref, "filter": filt}]],
+              "ops": ["add_filter"]}
+    rows = t.row_ids
+    if r < 0.7 or not rows:
+      return {"k": "bundle", "a": [["AddRecord", "K", None, {
+        "ch": rng.choice(self.POOL + [None, 5]), "cl": rng.choice([None, ["L", self._choice(rng)],
+                                                                   ["L", self._choice(rng), self._choice(rng)], "alt"]),
+        "other": self._choice(rng)}]], "ops": ["add_row"]}
+    if r < 0.85:
+      return {"k": "bundle", "a": [["UpdateRecord", "K", rng.choice(rows), {
+        rng.choice(["ch", "other"]): self._choice(rng)}]], "ops": ["update_row"]}
+    return {"k": "bundle", "a": [["RemoveRecord", "K", rng.choice(rows)]], "ops": ["remove_row"]}
+
+  def check(self, sim, out, st):
+    ev = out.ev
+    if ev["k"] != "bundle" or "rename_choices" not in ev.get("ops", ()) or out.pre is None:
+      return
+    a = ev["a"][0]
+    _n, tid, cid, renames = a
+    pre, post = out.pre, sim.sigma
+    if tid not in pre or cid not in pre[tid][3]:
+      return
+    if not out.ok:
+      # A rename map is always a valid request on an existing Choice/ChoiceList column.
+      d = eq.diff(pre, post)
+      if d:
+        raise vio(sim, "rejection-left-trace", "; ".join(d[:3]))
+      raise vio(sim, "rename-choices-raised", "RenameChoices(%s.%s, %r) raised %s" % (tid, cid, renames, out.error))
+    dvp = DocView(pre)
+    col = dvp.tables[tid].cols[cid]
+    def ren(v):
+      return renames.get(v, v) if isinstance(v, str) else v
+    expected = {}
+    for r, v in zip(pre[tid][2], pre[tid][3][cid]):
+      if col.pure == "Choice":
+        expected[r] = ren(v) if isinstance(v, str) else v
+      else:
+        if isinstance(v, list) and v and v[0] == "L":
+          expected[r] = ["L"] + [ren(x) for x in v[1:]]
+        else:
+          expected[r] = v
+    got = dict(zip(post[tid][2], post[tid][3][cid]))
+    for r in expected:
+      if eq.norm(got.get(r)) != eq.norm(expected[r]):
+        raise vio(sim, "renamed-cells", "%s[%s].%s was %r, map %r: now %r, expected %r" % (
+          tid, r, cid, dict(zip(pre[tid][2], pre[tid][3][cid]))[r], renames, got.get(r), expected[r]))
+    # filters of that column
+    pf = eq.raw_rows_of(pre["_grist_Filters"])
+    qf = eq.raw_rows_of(post["_grist_Filters"])
+    if set(pf) != set(qf):
+      raise vio(sim, "filters-rows-changed", "%s -> %s" % (sorted(pf), sorted(qf)))
+    for r, rec in pf.items():
+      text = rec["filter"]
+      exp_text = text
+      if rec["colRef"] == col.ref and text:
+        try:
+          spec = json.loads(text)
+          new = {k: ([ren(x) for x in v] if isinstance(v, list) else v) for k, v in spec.items()}
+          exp = new
+        except ValueError:
+          exp = None
+        if exp is not None:
+          try:
+            now = json.loads(qf[r]["filter"])
+          except ValueError:
+            raise vio(sim, "filter-not-json", "filter %s became %r" % (r, qf[r]["filter"]))
+          if now != exp:
+            raise vio(sim, "renamed-filter", "filter %s of %s.%s was %s, map %r: now %s, expected %s" % (
+              r, tid, cid, text, renames, qf[r]["filter"], json.dumps(exp)))
+          continue
+      if qf[r]["filter"] != exp_text:
+        raise vio(sim, "other-filter-changed", "filter %s (colRef %s) changed from %r to %r" % (
+          r, rec["colRef"], text, qf[r]["filter"]))
+    # frame: nothing else changed (formula columns may follow the renamed column)
+    ign = {tid: [cid] + [c.colId for c in dvp.tables[tid].cols.values() if c.isFormula],
+           "_grist_Filters": ["filter"]}
+    d = eq.diff(pre, post, ignore_cols=ign)
+    if d:
+      raise vio(sim, "frame", "RenameChoices(%s.%s) also changed: %s" % (tid, cid, "; ".join(d[:3])))
+    sim.count("oracle.rename_choices")
+    if out.stored:
+      sim.count("oracle.nontrivial")
+      sim.shapes.add("%s/%s/%s" % (col.pure, sorted(renames.items()), len(pf)))
+
+
+# -- C28 ------------------------------------------------------------------------------------------
+
+class C28(HistoryProfile):
+  prop = "C28"
+  name = "c28"
+  technique = ("deterministic simulation: upserts with seeded require/col_values/options against a "
+               "table whose lookup index has lived through a history of edits, removals, undo and "
+               "restarts; reference upsert over the pre-state")
+  max_events = 28
+  KEYS = {"k1": [0, 1, 2, 3], "k2": ["", "a", "b"]}
+  VALS = {"v": [0, 5, 7, 9], "w": ["", "x", "y"]}
+
+  def config(self, rng, tier):
+    return {"max_events": rng.randint(8, self.max_events), "p_undo": 0.05, "p_restart": 0.04}
+
+  def first_events(self, sim, g, cfg):
+    return [{"k": "open"},
+            {"k": "bundle", "ops": ["upsert_schema"], "a": [
+              ["AddTable", "U", [{"id": "k1", "type": "Int", "isFormula": False},
+                                 {"id": "k2", "type": "Text", "isFormula": False},
+                                 {"id": "v", "type": "Int", "isFormula": False},
+                                 {"id": "w", "type": "Text", "isFormula": False},
+                                 {"id": "f", "type": "Any", "isFormula": True,
+                                  "formula": "len(U.lookupRecords(k1=$k1))"}]],
+              ["BulkAddRecord", "U", [None] * 4, {"k1": [1, 1, 2, 3], "k2": ["a", "b", "a", ""],
+                                                  "v": [5, 5, 7, 0]}]]}]
+
+  def next_event(self, sim, g, cfg, st, i):
+    rng = g.rng
+    dv = DocView(sim.sigma)
+    t = dv.tables.get("U")
+    if t is None:
+      return None
+    r = rng.random()
+    if r < cfg["p_undo"] and sim.ptr > 1:
+      return {"k": "undo"}
+    if r < cfg["p_undo"] + cfg["p_restart"]:
+      return {"k": "restart", "mode": "reported"}
+    rows = t.row_ids
+    if r < 0.25:
+      k = rng.random()
+      if k < 0.4 or not rows:
+        return {"k": "bundle", "ops": ["add_row"], "a": [["AddRecord", "U", None, {
+          "k1": rng.choice(self.KEYS["k1"]), "k2": rng.choice(self.KEYS["k2"]), "v": rng.choice(self.VALS["v"])}]]}
+      if k < 0.75:
+        return {"k": "bundle", "ops": ["update_row"], "a": [["UpdateRecord", "U", rng.choice(rows), {
+          rng.choice(["k1"]): rng.choice(self.KEYS["k1"]), "k2": rng.choice(self.KEYS["k2"])}]]}
+      return {"k": "bundle", "ops": ["remove_row"], "a": [["RemoveRecord", "U", rng.choice(rows)]]}
+    # an upsert
+    n = rng.choice([1, 1, 2, 3])
+    rcols = rng.choice([["k1"], ["k2"], ["k1", "k2"], [], ["k1", "k2"], ["f"], ["id"]])
+    vcols = rng.choice([["v"], ["w"], ["v", "w"], [], ["v"], ["k2", "v"]])
+    require = {c: [self._val(rng, c, rows) for _ in range(n)] for c in rcols}
+    values = {c: [self._val(rng, c, rows) for _ in range(n)] for c in vcols}
+    opts = {}
+    if rng.random() < 0.4:
+      opts["on_many"] = rng.choice(["first", "none", "all", "all", "bogus"])
+    if rng.random() < 0.25:
+      opts["update"] = rng.random() < 0.5
+    if rng.random() < 0.25:
+      opts["add"] = rng.random() < 0.5
+    if not rcols and rng.random() < 0.6:
+      opts["allow_empty_require"] = True
+    if rng.random() < 0.08 and values:
+      c = rng.choice(list(values))
+      values[c] = values[c] + [self._val(rng, c, rows)]     # mismatched lengths
+    if n == 1 and rng.random() < 0.5:
+      return {"k": "bundle", "ops": ["upsert1"], "a": [["AddOrUpdateRecord", "U",
+              {c: v[0] for c, v in require.items()}, {c: v[0] for c, v in values.items() if len(v) == 1}, opts]]}
+    return {"k": "bundle", "ops": ["upsert"], "a": [["BulkAddOrUpdateRecord", "U", require, values, opts]]}
+
+  def _val(self, rng, c, rows):
+    if c in self.KEYS:
+      return rng.choice(self.KEYS[c])
+    if c in self.VALS:
+      return rng.choice(self.VALS[c])
+    if c == "id":
+      return rng.choice((rows or [1]) + [99])
+    return rng.choice([0, 1, 2])
+
+  def check(self, sim, out, st):
+    ev = out.ev
+    if ev["k"] != "bundle" or not (set(ev.get("ops", ())) & {"upsert", "upsert1"}) or out.pre is None:
+      return
+    a = ev["a"][0]
+    single = a[0] == "AddOrUpdateRecord"
+    _n, tid, require, values, opts = a
+    pre, post = out.pre, sim.sigma
+    if tid not in pre:
+      return
+    if single:
+      require = {k: [v] for k, v in require.items()}
+      values = {k: [v] for k, v in values.items()}
+    model = self._model(pre, require, values, opts, single)
+    if model == "invalid":
+      if out.ok:
+        raise vio(sim, "invalid-upsert-accepted", "%s accepted: %s" % (a[0], json.dumps(a, default=repr)[:300]))
+      d = eq.diff(pre, post)
+      if d:
+        raise vio(sim, "rejection-left-trace", "; ".join(d[:3]))
+      sim.count("oracle.upsert_rejected")
+      sim.count("oracle.nontrivial")
+      sim.shapes.add("invalid/%s/%s" % (sorted(require), sorted(opts.items())))
+      return
+    if model is None:
+      sim.count("probe.upsert_outside_model")
+      if not out.ok:
+        d = eq.diff(pre, post)
+        if d:
+          raise vio(sim, "rejection-left-trace", "; ".join(d[:3]))
+      return
+    if not out.ok:
+      raise vio(sim, "valid-upsert-rejected", "%s raised %s: %s" % (a[0], out.error, json.dumps(a, default=repr)[:300]))
+    exp_rows, exp_ret, n_add = model
+    cols = ["k1", "k2", "v", "w"]
+    got = {r: {c: post[tid][3][c][i] for c in cols} for i, r in enumerate(post[tid][2])}
+    pre_ids = set(pre[tid][2])
+    new_ids = sorted(set(got) - pre_ids)
+    if len(new_ids) != n_add or (pre_ids - set(got)):
+      raise vio(sim, "upsert-rows", "expected %d new rows, got %s (removed: %s)" % (
+        n_add, new_ids, sorted(pre_ids - set(got))))
+    # map the model's placeholder ids (-1, -2, ...) to the new row ids in order
+    mapping = {-(i + 1): r for i, r in enumerate(new_ids)}
+    for r, rec in exp_rows.items():
+      rr = mapping.get(r, r)
+      for c in cols:
+        if eq.norm(got[rr][c]) != eq.norm(rec[c]):
+          raise vio(sim, "upsert-cells", "U[%s].%s = %r, reference upsert gives %r (%s)" % (
+            rr, c, got[rr][c], rec[c], json.dumps(a, default=repr)[:300]))
+    ret = out.ret[0]
+    exp_ids = [[mapping.get(x, x) for x in ids] for ids in exp_ret]
+    if single:
+      want_ids = exp_ids[0] if exp_ids else []
+      got_ids = ret.get("recordIds")
+      action = ret.get("action")
+      want_action = "NONE" if not want_ids else ("ADD" if want_ids[0] in new_ids else "UPDATE")
+      if list(got_ids or []) != list(want_ids) or action != want_action:
+        raise vio(sim, "upsert-return", "returned %r, reference %r/%s (%s)" % (
+          ret, want_ids, want_action, json.dumps(a, default=repr)[:300]))
+    else:
+      if [list(x or []) for x in ret.get("recordIds", [])] != exp_ids and (require or values):
+        raise vio(sim, "upsert-return", "returned recordIds %r, reference %r (%s)" % (
+          ret.get("recordIds"), exp_ids, json.dumps(a, default=repr)[:300]))
+    sim.count("oracle.upsert")
+    sim.count("oracle.nontrivial")
+    sim.shapes.add("%s/%s/%s/add%d" % (sorted(require), sorted(values), sorted(opts.items()), n_add))
+
+  def _model(self, pre, require, values, opts, single):
+    """Reference upsert. Returns 'invalid', None (outside the model), or
+    (expected rows {id or -k: cells}, expected recordIds per input row, number of added rows)."""
+    if single and not require and not values:
+      return None          # the single-record form answers NONE before looking at the options
+    on_many = opts.get("on_many", "first")
+    if on_many not in ("first", "none", "all"):
+      return "invalid"
+    if not require and not opts.get("allow_empty_require", False):
+      return "invalid"
+    if not require and not values:
+      return None
+    if not require and any(len(v) > 1 for v in values.values()):
+      return None          # several input rows that all match every record: order of writes undefined
+    lengths = set(len(v) for v in list(require.values()) + list(values.values()))
+    if len(lengths) != 1:
+      return "invalid"
+    n = lengths.pop()
+    if require:
+      tuples = list(zip(*[require[c] for c in sorted(require)]))
+      try:
+        if len(set(tuples)) < n:
+          return "invalid"
+      except TypeError:
+        return None
+    if "f" in require or "id" in require or "id" in values:
+      return None          # formula / id keys: not modelled
+    dv = DocView(pre)
+    tv = lm.TableView(pre, dv, "U")
+    cols = ["k1", "k2", "v", "w"]
+    rows = {r: {c: pre["U"][3][c][i] for c in cols} for i, r in enumerate(pre["U"][2])}
+    do_update = opts.get("update", True)
+    do_add = opts.get("add", True)
+    ret = []
+    adds = []
+    updates = []
+    for i in range(n):
+      keys = {}
+      for c in require:
+        v = lm.convert_key(tv.col_pure(c), lm.rich(tv.col_pure(c), require[c][i]))
+        if v is U:
+          return None
+        keys[c] = ("eq", v)
+      match = lm.matching_rows(tv, keys)
+      if match is U:
+        return None
+      ids = []
+      if not match and do_add:
+        rec = {c: require[c][i] for c in require}
+        rec.update({c: values[c][i] for c in values})
+        adds.append(rec)
+        ids = [-len(adds)]
+      if match and do_update:
+        if len(match) > 1 and on_many == "first":
+          match = match[:1]
+        elif len(match) > 1 and on_many == "none":
+          match = []
+        for r in match:
+          updates.append((r, {c: values[c][i] for c in values}))
+        ids = list(match) if match else ids
+      ret.append(ids)
+    defaults = {"k1": 0, "k2": "", "v": 0, "w": ""}
+    for k, rec in enumerate(adds):
+      rows[-(k + 1)] = dict(defaults, **rec)
+    for r, vals in updates:
+      rows[r].update(vals)
+    return rows, ret, len(adds)
+
+
+PROFILES = [C13(), C14(), C39(), C28()]
